@@ -367,7 +367,8 @@ def read_response(data, end="fin", method="GET", max_header_size=65536, max_body
 
     ``end``: how the connection ended after ``data``: "fin" (orderly close),
     "rst" (connection error) or None (still open: only complete messages
-    count).  ``max_body_size`` None = unlimited.
+    count).  ``max_body_size`` None = unlimited; 0 = no body byte at all is acceptable
+    (empty bodies and bodiless responses are still fine).
     """
     data = bytes(data)
     res = Result()
